@@ -19,7 +19,8 @@ def validate_for_sql(model: Reference):
 
 
 def generate_inline_sql(model: Reference, source_col: List[Column], ref_col: List[Column]) -> str:
-    result = comment_to_sql(model.comment) if model.comment else ''
+    # braces of the comment are doubled: the text goes through str.format (for `{c}`) later
+    result = comment_to_sql(model.comment).replace('{', '{{').replace('}', '}}') if model.comment else ''
     result += (
         f'{{c}}FOREIGN KEY ({col_names(source_col)}) '  # type: ignore
         f'REFERENCES {get_full_name_for_sql(ref_col[0].table)} ({col_names(ref_col)})'  # type: ignore
@@ -32,7 +33,8 @@ def generate_inline_sql(model: Reference, source_col: List[Column], ref_col: Lis
 
 
 def generate_not_inline_sql(model: Reference, source_col: List['Column'], ref_col: List['Column']):
-    result = comment_to_sql(model.comment) if model.comment else ''
+    # braces of the comment are doubled: the text goes through str.format (for `{c}`) later
+    result = comment_to_sql(model.comment).replace('{', '{{').replace('}', '}}') if model.comment else ''
     result += (
         f'ALTER TABLE {get_full_name_for_sql(source_col[0].table)}'  # type: ignore
         f' ADD {{c}}FOREIGN KEY ({col_names(source_col)})'
